@@ -73,6 +73,10 @@ def check(run):
         order_ok = names == ['write_ip_header', 'write_%s_header' % kind, 'payload'] and all(q.precedes(f, seq[i], seq[i + 1]) for i in range(len(seq) - 1)) and all(q.precedes(f, w, seq[0]) for w in ws)
         run.check(order_ok, 'R14', 'record-body', PC + '::log_' + kind, f.loc(), 'after the record header the body is not exactly ip header, %s header, payload (found %s)' % (kind, names), 'ip header, transport header, payload, in that order')
         if len(seq) == 3:
+            a3, a4 = q.render(f, seq[0]['args'][3]), q.render(f, seq[0]['args'][4])
+            run.check(a3 == 'src.address().to_v4()' and a4 == 'dst.address().to_v4()', 'R14', 'ip-addresses', PC + '::log_' + kind, f.loc(seq[0]),
+                      'the IP header takes its addresses from %s / %s, not from the true source and destination endpoints handed in by the socket (packet::from is rewritten by NATs and survives in retransmitted packets)' % (a3, a4),
+                      'addresses from the src/dst endpoints passed by the socket')
             run.check(q.render(f, seq[0]['args'][1]) == 'packet_size', 'R14', 'ip-total-length', PC + '::log_' + kind, f.loc(seq[0]), 'IP total length is %s' % q.render(f, seq[0]['args'][1]), 'IP total length = packet_size')
             run.check(q.int_value(seq[0]['args'][2]) == (6 if kind == 'tcp' else 17), 'R14', 'ip-protocol', PC + '::log_' + kind, f.loc(seq[0]), 'wrong IP protocol number', 'protocol %d' % (6 if kind == 'tcp' else 17))
             pa = seq[2]['args']
@@ -163,16 +167,44 @@ def check(run):
 
     run.clause('sequence numbers: byte_counter stamped from bytes_sent[self] before the counter advances, in send_packet only; counter zero-initialised')
     engines.r2_writer_table(run, P + '::byte_counter', {sp.norm: 'stamped at transmission'}, required=[sp.norm])
-    engines.r2_writer_table(run, CH + '::bytes_sent', {sp.norm: 'advanced by the payload size'}, required=[sp.norm])
     stamp = [a for a in q.field_accesses(sp, {P + '::byte_counter'}) if a.kind == 'assign']
-    adv = [a for a in q.field_accesses(sp, {CH + '::bytes_sent'}) if a.kind == 'compound']
-    oks = len(stamp) == 1 and len(adv) == 1 and q.precedes(sp, stamp[0].site, adv[0].site) and q.render(sp, stamp[0].site['rhs']) == 'm_channel->bytes_sent[idx]' and \
-        adv[0].method == '+=' and 'p.buffer.size()' in q.render(sp, adv[0].site['rhs']) and q.render(sp, adv[0].site['lhs']) == 'm_channel->bytes_sent[idx]'
+    # provenance of the counter: a field of the per-connection object (fresh and zeroed for every connection), or
+    # - accepted alternative - a socket member that is reset wherever a connection begins or ends
+    src_field = None
+    if stamp:
+        for x in walk(stamp[0].site['rhs']):
+            fnm = q.field_name(x)
+            if fnm and fnm not in (T + '::m_channel',):
+                src_field = fnm
+    if src_field is None:
+        run.broke('send_packet: the source of packet::byte_counter is not a field')
+        src_field = CH + '::bytes_sent'
+    if src_field.startswith(CH + '::'):
+        run.ok('R4', 'counter-per-connection', src_field, sp.loc(), 'the counter lives in the channel object, created (and zero-initialised) per connection')
+    else:
+        import handlers
+        attach = {}
+        for fn in fx.repo_functions():
+            if fn.cls == T and fn.kind != 'ctor' and not fn.d.get('defaulted'):
+                for a in q.field_accesses(fn, {T + '::m_channel'}):
+                    if a.kind == 'assign' and q.is_this(q.access_root(a.node)) and q.strip_casts(a.site['args'][1] if a.site['k'] == 'call' else a.site['rhs']).get('k') != 'nullptr':
+                        attach[fn.norm] = fn
+        for name, fn in sorted(attach.items()):
+            z = [a for a in q.field_accesses(fn, {src_field}) if a.kind == 'assign' and q.int_value(a.site['rhs']) == 0]
+            run.check(bool(z), 'R4', 'counter-per-connection', '%s resets %s' % (name, src_field.split('::')[-1]), fn.loc(),
+                      'the sequence counter %s lives in the socket object and %s attaches a new connection without resetting it: the next connection\'s sequence numbers do not start at zero' % (src_field.split('::')[-1], name), 'reset where the connection is attached')
+    engines.r2_writer_table(run, src_field, {sp.norm: 'advanced by the payload size', T + '::async_connect': 'reset', T + '::internal_connect': 'reset', T + '::close': 'reset', T + '::socket': 'move'} if not src_field.startswith(CH) else {sp.norm: 'advanced by the payload size'}, required=[sp.norm])
+    adv = [a for a in q.field_accesses(sp, {src_field}) if a.kind == 'compound']
+    oks = len(stamp) == 1 and len(adv) == 1 and q.precedes(sp, stamp[0].site, adv[0].site) and \
+        adv[0].method == '+=' and 'p.buffer.size()' in q.render(sp, adv[0].site['rhs']) and q.render(sp, adv[0].site['lhs']) == q.render(sp, stamp[0].site['rhs'])
     run.check(oks, 'R4', 'stamp-before-advance', sp.norm, sp.loc(), 'the sequence number is not bytes_sent[idx] sampled before bytes_sent[idx] += payload size', 'stamped, then advanced by p.buffer.size()')
     idx = [v for n in sp.all_nodes() if n['k'] == 'decl' for v in n['vars'] if v.get('name') == 'idx']
     if not idx:
         run.broke('send_packet: local idx not found (renamed?)')
     run.check(not idx or q.render(sp, idx[0]['init']) == 'm_channel->self_idx(m_bound_to)', 'R4', 'direction-index', sp.norm, sp.loc(), 'the counter index is not this side\'s self_idx', 'idx = self_idx(m_bound_to)')
+    if not src_field.startswith(CH + '::'):
+        run.floor('R14', 25)
+        return
     ch = fx.record(CH)[0]
     bs = [f for f in ch['fields'] if f['name'] == 'bytes_sent'][0]
     ctor_ok = bs['init']
